@@ -38,6 +38,7 @@ QUICK_PAIR_KINDS = [
     "int32", "sint64", "uint64", "double", "bool", "string", "bytes",
     "enum:Color", "msg:Sub", "timestamp", "wrap:int32", "fixed32",
 ]
+RAW_NAMED_FIELDS = ["fooBar", "shard__id", "userName", "value__x_y"]
 FIELD_NUMBERS = [1, 15, 16, 2047, 2048, 536870911]
 NAMED_FIELDS = ["foo_bar", "address_line_1", "x_y_z", "ipv4_address", "a1b2", "field_1_name", "is_3d",
                 "k8s_pod", "sha256_hash", "a_b_c_d", "v2", "i_18_n", "utf8_text", "vlan_id_1",
@@ -191,6 +192,12 @@ class Universe:
         for ni, nm in enumerate(NAMED_FIELDS):
             # Python field named as the plugin names it; proto / reference side keeps the proto name
             m = Msg(f"TN{ni}", (Field(pythonize_field_name(nm), 3, "int32", proto_name=nm), Field("other", 4, "string")))
+            msgs.append(m)
+            self._plans.append(("TN", m, nm))
+        # ... and hand-written classes that keep the .proto spelling as the PYTHON attribute name
+        # (names that snake-casing would alter)
+        for ni, nm in enumerate(RAW_NAMED_FIELDS):
+            m = Msg(f"TNR{ni}", (Field(nm, 3, "int32", proto_name=nm), Field("other", 4, "string")))
             msgs.append(m)
             self._plans.append(("TN", m, nm))
         # kitchen sink: one field of EVERY unit in one message (declaration order != number order)
